@@ -8,7 +8,7 @@ from sqlparse.exceptions import SQLParseError
 
 RULE = ('(a) option dictionaries drawn from a pool of Python values per documented option (valid and invalid; singles exhaustively, random subsets) on a fixed probe and on random texts: format() returns or raises SQLParseError; '
         '(b) parse/split/format with random VALID option sets on junk (g2/g3), nearly valid and grammar inputs; (c) every read-only accessor on every node of every resulting tree; '
-        '(d) sweeps: every sequence (<= 3, sampled 4) over 35 junk tokens around the joining markers (::, AS, ., [, :=, operators, OVER, …) with every accessor on every group; degenerate inputs x every single valid option value (+ split(strip_semicolon), + encoding keyword), every token-prefix/suffix and single-token deletion of grammar statements, '
+        '(d) sweeps: every sequence (<= 3, sampled 4) over 35 junk tokens around the joining markers (::, AS, ., [, :=, operators, OVER, …) with every accessor on every group; the clause keywords of CASE / IF / loops / SELECT / DML in every order and omission (sequences <= 3, CASE <= 4 with length 4 sampled in the quick tier) x every accessor x each layout option set; degenerate inputs x every single valid option value (+ split(strip_semicolon), + encoding keyword), every token-prefix/suffix and single-token deletion of grammar statements, '
         'every dictionary word in dangling positions (incl. after WITH), option values in every spelling/type x a reference of the documented domain (an invalid value must raise SQLParseError); '
         'non-trivial = distinct (text, options) or (text, node, accessor) evaluated')
 ASSUMPTIONS = ['right_margin is undocumented (raises NotImplementedError by design) and is outside the option domain', 'MemoryError etc. from CPython internals are out of scope']
@@ -416,7 +416,7 @@ def junk_texts(ctx):
         yield 'select ' + ' '.join(seq) + ' from t'
         yield '(' + ' '.join(seq) + ')'
     four = list(itertools.product(core, repeat=4))
-    for seq in rng.sample(four, ctx.n(3000, len(four))):
+    for seq in rng.sample(four, ctx.n(2000, len(four))):
         yield ' '.join(seq)
 
 
@@ -438,9 +438,68 @@ def junk_sweep(ctx):
     ctx.count('junk_sweep', n)
 
 
+# --- round-5 hardening: clause keywords of every block construct in every order and with every omission ---------------------------------------------------
+# accessors and the two layout filters walk CASE / IF / loop / statement bodies with a small state machine keyed on the clause keywords (Case.get_cases, the
+# _process_case / _split_kwds / _next_token code of the reindent filters); a body that starts with THEN, has two WHENs in a row, only END, ELSE before WHEN, … drives
+# these machines through every transition.  Bounded-exhaustive: every sequence over the words of a family (<= 3 everywhere, <= 4 for CASE; thorough: one longer), bare
+# and inside a statement; every accessor (also with arguments) on every node; format() with each layout option set (not a random one).
+FAMILIES = {
+    'case': ('case', ['when', 'then', 'else', 'end', 'x', '1', 'and', 'case', ',']),
+    'if': ('', ['if', 'then', 'elsif', 'else', 'end if', 'end', 'x', ';', 'begin']),
+    'loop': ('', ['for', 'while', 'loop', 'end loop', 'in', 'x', ';', 'begin', 'end', 'declare']),
+    'select': ('', ['select', 'from', 'where', 'group by', 'order by', 'having', 'limit', 'union', 'join', 'on', 'x', ',', '(', ')']),
+    'dml': ('', ['insert into', 'values', 'update', 'set', 'delete from', 'returning', 'x', '(', ')', ',', '=', 'where']),
+}
+LAYOUTS = [{'reindent': True}, {'reindent_aligned': True}, {'reindent': True, 'comma_first': True, 'indent_columns': True}, {'reindent': True, 'compact': True, 'wrap_after': 1},
+           {'strip_whitespace': True, 'strip_comments': True, 'use_space_around_operators': True}]
+
+
+def clause_order_texts(ctx):
+    import itertools
+    for fam, (head, words) in sorted(FAMILIES.items()):
+        top = (4 if fam == 'case' else 3) + (0 if ctx.quick() else 1)
+        for n in range(1, top + 1):
+            seqs = list(itertools.product(words, repeat=n))
+            if ctx.quick() and n == 4:
+                seqs = ctx.rng.sample(seqs, 1500)          # quick tier: length 4 sampled (all 6 561 in the thorough tier)
+            for seq in seqs:
+                body = ' '.join(((head,) if head else ()) + seq)
+                yield fam, body
+                if n <= 3 and fam == 'case':
+                    yield fam, 'select ' + body + ' from t'
+                    if n <= 2 or not ctx.quick():
+                        yield fam, 'select f(' + body + ' end) y, case when ' + body + ' end end'
+                elif n <= 2:
+                    yield fam, 'create procedure p() begin ' + body + ' end'
+
+
+def clause_order_sweep(ctx):
+    n = 0
+    for fam, t in clause_order_texts(ctx):
+        n += 1
+        try:
+            stmts = sqlparse.parse(t)
+            ctx.evaluations += 1
+        except SQLParseError:
+            continue
+        except Exception as e:
+            ctx.fail('%s escaped from parse()' % type(e).__name__, t, observed=repr(e)[:160], required='result or SQLParseError')
+            continue
+        accessors(ctx, t, stmts)
+        if ctx.quick():
+            # the two filters with their own clause machines on every text, the other layouts in rotation
+            for o in (LAYOUTS[0], LAYOUTS[1], LAYOUTS[2 + n % 3]) if fam == 'case' else (LAYOUTS[n % 2], LAYOUTS[2 + n % 3]):
+                try_format(ctx, t, o, 'clause keywords in every order')
+        else:
+            for o in LAYOUTS:
+                try_format(ctx, t, o, 'clause keywords in every order')
+    ctx.count('clause_order_sweep', n)
+
+
 def run(ctx):
     rng = ctx.rng
     junk_sweep(ctx)
+    clause_order_sweep(ctx)
     # (a) option values
     for k in OPTS:
         for v in POOL:
